@@ -373,47 +373,153 @@ def report(ctx, kind, tag, what, fmt):
                   replay_obj(cell, sample, vname, what, "same as the class method", fmt))
 
 
+def keyed_reference(path, key, o, name):
+    """class-level route for a keyed CDXML load: CDXMLFile(path)[key], renamed when a name is given, as the class"""
+    from molli.ftypes.cdxml import CDXMLFile
+
+    m = CDXMLFile(path)[key]
+    if name is not None:
+        m.name = name
+    return L.otype_cls(o)(m)
+
+
 def cdxml_key_cases(ctx, spy, sample):
-    """ml.load(path, 'cdxml', key=k) agrees with CDXMLFile(path)[k]; a name override is honoured"""
+    """OPTIONAL ARGUMENT `key`, in every form CDXMLFile.__getitem__ accepts and at its falsy-but-meaningful values:
+    integer positions 0, 1, last, -1, one past the end; labels (first, last, '', unknown) — each compared with
+    CDXMLFile(path)[key]; `name` None / '' / given on top (a given name, also the empty one, is the molecule's name)."""
     import molli as ml
     from molli.ftypes.cdxml import CDXMLFile
 
+    path = sample.files["cdxml"]
     with warnings.catch_warnings():
         warnings.simplefilter("ignore")
-        cdxf = CDXMLFile(sample.files["cdxml"])
-        keys = list(cdxf.keys())
-        if not keys:
-            return
-        ks = [keys[0], keys[-1]] if ctx.quick() else keys[:6]
-        for key in ks:
-            for o in L.OTYPES:
-                for name in (None, L.GIVEN_NAME):
-                    cell = ("load", "cdxml", "path", o, "given" if name else "notgiven", "explicitMatching")
-                    try:
-                        ref, rex = L.otype_cls(o)(CDXMLFile(sample.files["cdxml"])[key]), None
-                    except Exception as ex:  # noqa: BLE001
-                        ref, rex = None, ex
-                    try:
-                        kw = {"name": name} if name else {}
-                        got, gex = ml.load(sample.files["cdxml"], "cdxml", key=key, otype=L.otype_arg(o), **kw), None
-                    except Exception as ex:  # noqa: BLE001
-                        got, gex = None, ex
-                    ctx.case(f"cdxml-key:{sample.tag}:{key}:{o}:{name}", nontrivial=rex is None)
-                    ctx.count("content:load:cdxml-key")
-                    tag = (cell, sample, f"key={key!r}")
-                    if exc_name(gex) != exc_name(rex):
-                        report(ctx, "C09:load:exception-differs-from-class-method", tag, f"{exc_name(gex)} vs {exc_name(rex)}", "cdxml")
-                        continue
-                    if rex is not None:
-                        continue
-                    a, b = canon_obj(got), canon_obj(ref)
-                    if name is not None:
-                        b["name"] = name
-                        if got.name != name:
-                            report(ctx, "C09:load:name-override-ignored-with-key", tag, f"name {got.name!r}", "cdxml")
-                            continue
-                    if a != b:
-                        report(ctx, "C09:load:object-differs-from-class-method", tag, first_diff(a, b), "cdxml")
+        keys = list(CDXMLFile(path).keys())
+        n = len(keys)
+        ints = [0, 1, n - 1, -1, n] if not ctx.quick() else [0, n - 1, -1, n]
+        labels = ([keys[0], keys[-1]] if keys else []) + ["", "no such label"]
+        if not ctx.quick():
+            labels += keys[1:5]
+        plan = []
+        for key in ints + labels:
+            plan += [(key, "molecule", None), (key, "molecule", L.GIVEN_NAME)]
+        for key in [0] + labels[:1]:
+            plan += [(key, o, name) for o in L.OTYPES for name in (None, "", L.GIVEN_NAME)]
+        seen = set()
+        for key, o, name in plan:
+            if (repr(key), o, name) in seen:
+                continue
+            seen.add((repr(key), o, name))
+            cell = ("load", "cdxml", "path", o, "given" if name is not None else "notgiven", "explicitMatching")
+            try:
+                ref, rex = keyed_reference(path, key, o, name), None
+            except Exception as ex:  # noqa: BLE001
+                ref, rex = None, ex
+            try:
+                kw = {"name": name} if name is not None else {}
+                got, gex = ml.load(path, "cdxml", key, otype=L.otype_arg(o), **kw), None
+            except Exception as ex:  # noqa: BLE001
+                got, gex = None, ex
+            ctx.case(f"cdxml-key:{sample.tag}:{key!r}:{o}:{name!r}", nontrivial=rex is None)
+            ctx.count("optional-args:cdxml-key:" + type(key).__name__)
+            tag = (cell, sample, f"key={key!r}|name={name!r}")
+            if exc_name(gex) != exc_name(rex):
+                report(ctx, "C09:load:keyed-exception-differs-from-class-method", tag,
+                       f"entry point: {exc_name(gex) or 'returned'}, CDXMLFile[key]: {exc_name(rex) or 'returned'}", "cdxml")
+                continue
+            if rex is not None:
+                continue
+            if name is not None and got.name != name:
+                report(ctx, "C09:load:name-override-ignored-with-key", tag, f"name {got.name!r}", "cdxml")
+                continue
+            a, b = canon_obj(got), canon_obj(ref)
+            if a != b:
+                report(ctx, "C09:load:keyed-object-differs-from-class-method", tag, first_diff(a, b), "cdxml")
+
+
+def optional_argument_cases(ctx, spy, sample):
+    """Every optional argument of the entry points at its falsy-but-meaningful values, compared with the class-level
+    codec CALLED WITH THE SAME ARGUMENT: name='' (vs None), a key for formats without keys, parser / writer spelled in
+    another case, empty text, and objects without atoms / an empty list for the dumpers."""
+    import molli as ml
+
+    def compare(tagtxt, call, ref_call, cell, kind):
+        with warnings.catch_warnings():
+            warnings.simplefilter("ignore")
+            try:
+                got, gex = call(), None
+            except Exception as ex:  # noqa: BLE001
+                got, gex = None, ex
+            try:
+                ref, rex = ref_call(), None
+            except Exception as ex:  # noqa: BLE001
+                ref, rex = None, ex
+        ctx.case(f"optional:{sample.tag}:{tagtxt}", nontrivial=rex is None)
+        ctx.count("optional-args:" + kind)
+        what = None
+        if exc_name(gex) != exc_name(rex):
+            what = f"entry point: {exc_name(gex) or 'returned'}, class method: {exc_name(rex) or 'returned'}"
+        elif rex is None:
+            a, b = canon_value(got), canon_value(ref)
+            if a != b:
+                what = first_diff(a, b)
+        if what:
+            ctx.violation(f"C09:{cell[0]}:optional-argument:{kind}", f"{tagtxt} on {sample.tag}: {what}",
+                          replay_obj(cell, sample, tagtxt, what, "same as the class method called with the same argument", cell[1]))
+
+    for fmt in ("xyz", "mol2"):
+        path = sample.files[fmt]
+        text = path.read_text()
+        for o in L.OTYPES:
+            C = L.otype_cls(o)
+            oa = L.otype_arg(o)
+            cellp = lambda e, n="given": (e, fmt, "path" if e in ("load", "load_all") else "str", o, n, "explicitMatching")  # noqa: E731
+            # name='' is a name
+            compare(f"ml.load(<{fmt}>, otype={o}, name='')", lambda: ml.load(path, fmt, otype=oa, name=""),
+                    lambda: getattr(C, f"load_{fmt}")(open(path), name=""), cellp("load"), "empty-name")
+            compare(f"ml.loads(<{fmt}>, otype={o}, name='')", lambda: ml.loads(text, fmt, otype=oa, name=""),
+                    lambda: getattr(C, f"loads_{fmt}")(text, name=""), cellp("loads"), "empty-name")
+            if o != "ensemble":
+                compare(f"ml.load_all(<{fmt}>, otype={o}, name='')", lambda: ml.load_all(path, fmt, otype=oa, name=""),
+                        lambda: getattr(C, f"load_all_{fmt}")(open(path), name=""), cellp("load_all"), "empty-name")
+                compare(f"ml.loads_all(<{fmt}>, otype={o}, name='')", lambda: ml.loads_all(text, fmt, otype=oa, name=""),
+                        lambda: getattr(C, f"loads_all_{fmt}")(text, name=""), cellp("loads_all"), "empty-name")
+            # a key means nothing for these formats, whatever its value
+            for key in (0, "", "x"):
+                compare(f"ml.load(<{fmt}>, {fmt!r}, {key!r}, otype={o})", lambda: ml.load(path, fmt, key, otype=oa),
+                        lambda: getattr(C, f"load_{fmt}")(open(path)), cellp("load", "notgiven"), "key-without-meaning")
+            # parser / writer named in another case
+            compare(f"ml.loads(<{fmt}>, otype={o}, parser='MOLLI')", lambda: ml.loads(text, fmt, otype=oa, parser="MOLLI"),
+                    lambda: getattr(C, f"loads_{fmt}")(text), cellp("loads", "notgiven"), "parser-spelling")
+            # empty text
+            compare(f"ml.loads('', {fmt!r}, otype={o})", lambda: ml.loads("", fmt, otype=oa),
+                    lambda: getattr(C, f"loads_{fmt}")(""), cellp("loads", "notgiven"), "empty-text")
+            if o != "ensemble":
+                compare(f"ml.loads_all('', {fmt!r}, otype={o})", lambda: ml.loads_all("", fmt, otype=oa),
+                        lambda: getattr(C, f"loads_all_{fmt}")(""), cellp("loads_all", "notgiven"), "empty-text")
+        # dumpers: objects without atoms, an ensemble without conformers, an empty list
+        empties = []
+        for mk, what in ((lambda: ml.Molecule(), "Molecule()"), (lambda: ml.Structure(), "Structure()"),
+                         (lambda: ml.ConformerEnsemble(), "ConformerEnsemble()"), (lambda: [], "[]")):
+            try:
+                empties.append((mk(), what))
+            except Exception:  # noqa: BLE001
+                pass
+        for obj, what in empties:
+            celld = ("dumps", fmt, "str", "molecule", "notgiven", "explicitMatching")
+            compare(f"ml.dumps({what}, {fmt!r})", lambda: ml.dumps(obj, fmt), lambda: getattr(obj, f"dumps_{fmt}")(), celld, "empty-object")
+
+            def dump_entry():
+                st = io.StringIO()
+                r = ml.dump(obj, st, fmt, writer="Molli")
+                return [repr(r), st.getvalue()]
+
+            def dump_ref():
+                st = io.StringIO()
+                r = getattr(obj, f"dump_{fmt}")(st)
+                return [repr(r), st.getvalue()]
+
+            compare(f"ml.dump({what}, <stream>, {fmt!r}, writer='Molli')", dump_entry, dump_ref,
+                    ("dump", fmt, "stream", "molecule", "notgiven", "explicitMatching"), "empty-object")
 
 
 def sequence_cases(ctx, spy, work: Path, contents: dict):
@@ -680,6 +786,7 @@ def run(ctx):
                     ctx.evaluations += n - 1
             if i < len(samples) or i % 10 == 0:
                 cdxml_key_cases(ctx, spy, s)
+                optional_argument_cases(ctx, spy, s)
             if i < 3 or not ctx.quick():
                 unsupported_cases(ctx, spy, s)
             if i == len(samples) - 1:
@@ -746,12 +853,23 @@ def replay(ctx, path):
         import ast
         import molli as ml
 
-        key = ast.literal_eval(v[4:])
+        kpart, _, npart = v.partition("|name=")
+        key = ast.literal_eval(kpart[4:])
         kw = {"name": L.GIVEN_NAME} if cell[4] == "given" else {}
+        if npart and ast.literal_eval(npart) is not None:
+            kw = {"name": ast.literal_eval(npart)}
         with warnings.catch_warnings():
             warnings.simplefilter("ignore")
-            m = ml.load(files["cdxml"], "cdxml", key=key, otype=L.otype_arg(cell[3]), **kw)
-        print(f"observed: ml.load(..., key={key!r}, {kw}) returned {type(m).__name__} named {m.name!r}")
+            try:
+                m = ml.load(files["cdxml"], "cdxml", key, otype=L.otype_arg(cell[3]), **kw)
+                print(f"observed: ml.load(<cdxml>, 'cdxml', {key!r}, {kw}) returned {type(m).__name__} named {m.name!r}, {m.n_atoms} atoms")
+            except Exception as ex:  # noqa: BLE001
+                print(f"observed: ml.load(<cdxml>, 'cdxml', {key!r}, {kw}) raised {type(ex).__name__}")
+            try:
+                ref = keyed_reference(files["cdxml"], key, cell[3], kw.get("name"))
+                print(f"class-level: CDXMLFile(path)[{key!r}] -> {type(ref).__name__} named {ref.name!r}, {ref.n_atoms} atoms")
+            except Exception as ex:  # noqa: BLE001
+                print(f"class-level: CDXMLFile(path)[{key!r}] raised {type(ex).__name__}")
         print("demanded:", r.get("demanded"), "(and the name override honoured)")
         return 0
     with L.Spy() as spy, warnings.catch_warnings():
